@@ -138,6 +138,8 @@ def cases(tier, seed):
         if len(prog.ins) == 2 and prog.ins[0][1] == 'R':
             for rec in ('ndarray', 'utpm11', 'utpmDP'):
                 out.append({'kind': 'late', 'seed': case_seed('C05', seed, 'late', prog.name, rec), 'params': {'prog': prog.name, 'rec': rec}})
+    for i in range(12 if tier == 'quick' else 200):
+        out.append({'kind': 'preamble', 'seed': case_seed('C05', seed, 'preamble', i), 'params': {'rec': 'ndarray', 'form': i % 4}})
     for i in range(18 if tier == 'quick' else 300):
         out.append({'kind': 'selfconst', 'seed': case_seed('C05', seed, 'selfconst', i), 'params': {'rec': ['ndarray', 'utpm11', 'utpmDP'][i % 3], 'form': (i // 3) % 6}})
     for i in range(12 if tier == 'quick' else 60):
@@ -145,7 +147,7 @@ def cases(tier, seed):
     return out
 
 
-REQUIRED = ['recording-value', 'replay:ndarray', 'replay:utpm', 'replay:complex', 'replay:same-object', 'trace-spec', 'trace-off', 'second-graph', 'late-independent', 'interleaved-recording', 'replay:constant-is-recording-object']
+REQUIRED = ['recording-value', 'replay:ndarray', 'replay:utpm', 'replay:complex', 'replay:same-object', 'trace-spec', 'trace-off', 'second-graph', 'late-independent', 'interleaved-recording', 'replay:constant-is-recording-object', 'preamble']
 
 
 def _same(a, b, tol=TOL):
@@ -191,6 +193,8 @@ def run_case(ctx, case):
         return _late(ctx, p, rng)
     if case['kind'] == 'selfconst':
         return _selfconst(ctx, p, rng)
+    if case['kind'] == 'preamble':
+        return _preamble(ctx, p, rng)
     if case['kind'] == 'single':
         prog = progs.by_name(p['prog']); f = prog.f; ins = prog.ins; label = prog.name
     else:
@@ -332,6 +336,66 @@ def _trace_spec(ctx, label, cg, spy):
         ctx.violation('trace-spec:unexplained-nodes', {'program': label, 'explained': k, 'nodes': len(opnodes)}); return False
     ctx.ok('trace-spec', ('trace', label), sample={'program': label, 'nodes': len(fl), 'operations': k, 'auxiliary_nodes': len(fl) - len(opnodes)} if k > 6 and len(ctx.samples) < 6 else None)
     return True
+
+
+def _preamble(ctx, p, rng):
+    """nodes recorded BEFORE the first independent variable: traced parameters that are not declared independent, a workspace allocated
+    from them, values computed from them - and only then x = Function(x0).  The workspace is updated in place by operations that
+    depend on its previous content; every replay starts from the program's initial state"""
+    form = p['form']
+    p0 = np.round(rng.uniform(0.5, 2.0, size=3), 2)
+    x0 = progs.rec_value(p['rec'], gen.base_sampler('R')(rng, (3,)), rng)
+
+    def body(prm, w, q, x):
+        if form == 0:
+            for i in range(3):
+                w[i] = w[i] + prm[i] * x[i]                 # accumulation into the workspace
+            return w * q
+        if form == 1:
+            w[0] = x[0] * prm[0]                            # partial overwrite that relies on the fresh zeros elsewhere
+            return w + algopy.sin(x) * q
+        if form == 2:
+            t = w[0] * 1.0 + q[1]
+            w[0] = w[2] + x[1]; w[2] = t * x[0]            # swap-like update
+            return w * x
+        w[...] = w + x * x                                  # whole-buffer update that reads the previous content
+        w[1] = w[1] * q[1]
+        return w
+
+    def direct(xv):
+        prm = p0.copy()
+        w = algopy.zeros(3, dtype=xv) if isinstance(xv, UTPM) else np.zeros(3)
+        q = prm * 2.0 + 1.0
+        return body(prm, w, q, xv)
+    try:
+        cg = CGraph()
+        prm = Function(p0.copy())                   # traced, but not an independent variable
+        w = algopy.zeros(3, dtype=prm)
+        q = prm * 2.0 + 1.0
+        x = Function(_copy(x0))
+        y = body(prm, w, q, x)
+        cg.trace_off()
+        cg.independentFunctionList = [x]; cg.dependentFunctionList = [y]
+    except Exception:
+        ctx.skip('not-traceable:preamble'); return
+    ok, exact, err = _same(y.x, direct(_copy(x0)))
+    if not ok:
+        ctx.violation('preamble:recording-value', {'form': form, 'rec': p['rec'], 'err': err}); return
+    # the workspace is typed like the (plain array) parameters, so it can hold plain values only: replays at plain points
+    for (kind, D, P) in [('ndarray', 0, 0)] * 3:
+        xs = _mk_replay(rng, [((3,), 'R')], kind, D, P)
+        try:
+            want = direct(_copy(xs[0]))
+        except Exception:
+            ctx.skip('direct-run-unsupported:preamble'); continue
+        try:
+            got = cg.function([_copy(xs[0])])[0]
+        except Exception as e:
+            ctx.violation('preamble:replay:raises', {'form': form, 'rec': p['rec'], 'replay': [kind, D, P], 'error': str(e)[:200]}); return
+        ok, exact, err = _same(got, want)
+        if not ok:
+            ctx.violation('preamble:replay:value', {'form': form, 'rec': p['rec'], 'replay': [kind, D, P], 'err': err}); return
+        ctx.ok('preamble', ('preamble', form, p['rec'], kind, D, P), exact=exact)
 
 
 def _selfconst(ctx, p, rng):
